@@ -1,14 +1,76 @@
 """C10 — integer <-> text conversion is exact, round-trips and respects the buffer (DESIGN §4 C10)."""
 import itertools
+import os
 import random
+import sys
 
+import lib
 from lib import Case, fmt_list
 
 PROP = "C10"
 DRIVER = "drv-c10"
-PROOF_MODULES = ["TetlProofs.C10.Props"]
+PROOF_MODULES = ["TetlProofs.C10.Props", "TetlProofs.C10.GenProps"]
 HARNESS = "harness/c10.cpp"
+# harness/c10.cpp is compiled as NPARTS translation units in parallel (-DC10_PART=k: the instantiations for two integer
+# types each, k = 8: the function-name operations) by run() below; check.py then compiles step()/main() (-DC10_PART=-1)
+# and links them.  As one translation unit it takes 50-80 s, most of the quick tier's budget.
+BASE_FLAGS = ["-g0"]
+HARNESS_FLAGS = list(BASE_FLAGS)
+NPARTS = 9
+
+
+def _build_parts():
+    """compile the translation units of the harness in parallel; returns the object files.  An object file is reused when
+    the preprocessed translation unit (every header of the tree under test expanded), the flags and the compiler are
+    byte-identical to those it was compiled from: any change of the library or of the harness gives a new key."""
+    import concurrent.futures as cf
+    import hashlib
+    os.makedirs(lib.BUILD, exist_ok=True)
+    cache = os.path.join(lib.BUILD, "c10_objcache")
+    os.makedirs(cache, exist_ok=True)
+    flags = list(lib.CXXFLAGS) + BASE_FLAGS
+    cxxv = lib.sh([lib.CXX, "--version"])[1]
+    src = os.path.join(lib.VERIF, HARNESS)
+
+    def one(k):
+        base = [lib.CXX] + flags + ["-DC10_PART=%d" % k, "-I", os.path.join(lib.REPO, "include"), "-I", os.path.join(lib.VERIF, "harness")]
+        rc, o, e = lib.sh(base + ["-E", src], timeout=600)
+        if rc != 0:
+            return None, rc, o[-200:] + e
+        key = hashlib.sha256((cxxv + "\0" + " ".join(flags) + "\0" + o).encode()).hexdigest()[:32]
+        out = os.path.join(cache, "part%d_%s.o" % (k, key))
+        if os.path.exists(out):
+            os.utime(out)
+            return out, 0, "cached"
+        tmp = out + ".%d.tmp" % os.getpid()
+        rc, o, e = lib.sh(base + ["-c", src, "-o", tmp], timeout=1800)
+        if rc == 0:
+            os.replace(tmp, out)
+        return out, rc, o + e
+
+    with cf.ThreadPoolExecutor(max_workers=NPARTS) as ex:
+        res = list(ex.map(one, range(NPARTS)))
+    bad = [r for r in res if r[1] != 0]
+    if bad:
+        raise lib.MachineryError("harness does not compile against %s:\n%s" % (lib.REPO, bad[0][2][-1500:]))
+    olds = sorted((os.path.join(cache, f) for f in os.listdir(cache)), key=os.path.getmtime)
+    for f in olds[:-8 * NPARTS]:
+        os.unlink(f)
+    return [r[0] for r in res]
+
+
+def run(ctx, replay=None):
+    """standard flow of check.py, with the translation units of the harness pre-compiled in parallel"""
+    global HARNESS_FLAGS
+    objs = _build_parts()
+    HARNESS_FLAGS = BASE_FLAGS + ["-DC10_PART=-1"] + objs
+    import check
+    return check.standard(sys.modules[__name__], ctx, replay)
+
+
 SOURCES = ["include/etl/_strings/to_integer.hpp", "include/etl/_strings/from_integer.hpp",
+           "include/etl/_strings/strto_integer.hpp", "include/etl/_cctype/isxdigit.hpp", "include/etl/_algorithm/reverse.hpp",
+           "include/etl/_numeric/abs.hpp", "include/etl/_math/abs.hpp",
            "include/etl/_charconv/to_chars.hpp", "include/etl/_charconv/from_chars.hpp",
            "include/etl/_string/to_string.hpp", "include/etl/_string/stoi.hpp",
            "include/etl/_cstdlib/atoi.hpp", "include/etl/_cstdlib/atol.hpp", "include/etl/_cstdlib/atoll.hpp",
@@ -30,13 +92,20 @@ RULE = ("to_chars: every value of int8/uint8 x every base 2..36 x every buffer l
         "to_integer with check_overflow = false: the limit texts and seeded random texts in bases 2,8,10,16,36 (thorough: "
         "all) for every type; for int/long/long long/wchar_t only those whose value is representable. "
         "strto*/sto*/ato*: every string of length <= 4 over {0,1,9,f,x,-,+,space} (strtol base 10 and base 0, strtoul "
-        "base 16, stoi/atoi base 10, stoul base 0 up to length 3; thorough: 4), the limit texts of each function's type in "
+        "base 16, stoi/atoi base 10, stoul base 0 and stol base 16 up to length 3; thorough: 4), texts that end in or right "
+        "behind a 0x prefix for every function in base 16 and 0 (sto*: exact-size heap views), the limit texts of each function's type in "
         "every base 2..36 (ato*: 10) with the decorations above plus '+' and '0x', seeded random digit strings in bases "
         "{2,8,10,16,36,random} with embedded NULs and 0x prefixes in base 16, and for base 0 (auto-detect; only "
         "strto*/sto* take it): hexadecimal (0x/0X), octal (0) and decimal renderings of the limits and limits+-1 with "
         "upper case, white space, sign, doubled prefix and trailing 8/9/g/x garbage, lone 0x, 0xg, 0b/0o texts and seeded "
-        "random prefixed digit strings. to_integer/from_chars themselves are not run with base 0 (std::from_chars has no "
-        "base 0 to compare with). A case is non-trivial when "
+        "random prefixed digit strings. to_integer (ws 0/1, checked and unchecked) and from_chars are also called DIRECTLY "
+        "with base 0 (an extension: [charconv.from.chars] has no base 0) for every type incl. the character types: every "
+        "string of length <= 4 over {0,x,X,1,f,g,-} for int8/uint8/int, the base-0 texts above for each type's own limits, "
+        "and seeded random prefixed digit strings; views are exact-size heap blocks, so a read behind a view that ends in "
+        "'0x'/'0X'/'-0x' is an ASan report; the reference of these lines is glibc's strtoll/strtoull with base 0 restricted "
+        "to to_integer's grammar and range-checked against the type. errno: `cstr_erange` lines compare the spec's ERANGE "
+        "flag with glibc's errno on the limit and short texts (the implementation is freestanding and has no errno). "
+        "A case is non-trivial when "
         "something is converted (>= 2 characters produced/consumed) or an error class other than 'empty input' is reached; "
         "distinct = distinct case text.")
 ASSUMPTIONS = ["libstdc++ 12 <charconv>/<string> and glibc strto* are the reference for spec validation (R2)",
@@ -44,12 +113,18 @@ ASSUMPTIONS = ["libstdc++ 12 <charconv>/<string> and glibc strto* are the refere
                "base is in [2,36] (the standard's precondition of to_chars/from_chars/from_integer; the code does not "
                "check it) or, for to_integer and the strto*/sto* wrappers, 0; to_string<Capacity> needs "
                "Capacity > number of characters (its TETL_PRECONDITION)",
+               "errno is not part of the model: a freestanding library has none, so strto* cannot report ERANGE; value and "
+               "end pointer are compared, the spec's ERANGE flag is validated against glibc separately",
                "to_integer with check_overflow = false is only claimed for texts whose value is representable (the "
                "contract of the option); outside it the run compares implementation and model (wrap-around) for the types "
                "where the overflow is defined, and runs nothing for int/long (undefined behaviour)"]
-TRUSTED = ["hand model Tetl/C10/Model.lean tied to the source by the correspondence run (R1) on every run",
-           "spec Tetl/C10/Spec.lean validated against libstdc++/glibc (R2) on every run",
-           "etl::reverse is modelled by its contract (List.reverse of the sub-range), not by its swap loop (C06)"]
+TRUSTED = ["hand model Tetl/C10/Model.lean tied to the source by the correspondence run (R1) on every run; its overflow "
+           "checkers and parseDigit additionally by translation (gen/translate.py -> Tetl/C10/Gen.lean on every run, "
+           "GenProps.lean: generated = hand model for all 15 integral types)",
+           "spec Tetl/C10/Spec.lean validated against libstdc++/glibc (R2) on every run; Spec.parseAuto (base 0 of "
+           "to_integer/from_chars, which the standard does not have) against glibc strtoll/strtoull(.., 0) on the direct "
+           "base-0 lines and, through Spec.strto, on the strto*/sto* lines",
+           "gen/translate.py and clang-16's AST for the generated checkers"]
 SEARCH_CAP = 900000
 
 TYPES = {"i8": (8, True), "u8": (8, False), "i16": (16, True), "u16": (16, False),
@@ -187,6 +262,25 @@ def py_parse(ty, text, b, ws):
     while i < len(text) and text[i].lower() in DIG[:b] and ord(text[i]) < 128:
         v, n, i = v * b + DIG.index(text[i].lower()), n + 1, i + 1
     return None if n == 0 else (-v if neg else v)
+
+
+def py_parse_auto(ty, text, ws):
+    """'range' when `text` read with base 0 under the to_integer grammar denotes a value outside `ty` (only used to keep
+    such texts away from the unchecked configuration of int / long, where the accumulation is undefined behaviour)"""
+    i = 0
+    if ws:
+        while i < len(text) and _is_space(ord(text[i])):
+            i += 1
+    sg = TYPES[ALIAS.get(ty, ty)][1]
+    sign = "-" if sg and text[i:i + 1] == "-" else ""
+    rest = text[i + len(sign):]
+    if len(rest) > 2 and rest[0] == "0" and rest[1] in "xX" and rest[2].lower() in DIG[:16] and ord(rest[2]) < 128:
+        b, rest = 16, rest[2:]
+    else:
+        b = 8 if rest[:1] == "0" else 10
+    v = py_parse(ty, sign + rest, b, False)
+    lo, hi = limits(ty)
+    return "range" if v is not None and not lo <= v <= hi else None
 
 
 def random_text(b, rnd):
@@ -346,6 +440,31 @@ def generate(tier, seed):
                     continue
                 add("to_integer_nc ty=%s s=%s base=%d ws=%d" % (ty, enc(t), b, ws), "to_integer_nc")
 
+    # ---- to_integer / from_chars called DIRECTLY with base 0 (auto-detection).  Views are exact-size heap blocks: a
+    # read behind a view that ends in "0x" / "0X" / "-0x" is an ASan report.
+    zalpha = ["0", "x", "X", "1", "f", "g", "-"]
+    zshort = [list(t) for n in range(0, 5) for t in itertools.product(zalpha, repeat=n)]
+    for ty in ("i8", "u8", "i32"):
+        for z in zshort:
+            if len(z) == 4 and ty == "i32" and not thorough:
+                continue
+            add("to_integer ty=%s s=%s base=0 ws=1" % (ty, enc(z)), "to_integer/base0-short")
+            add("from_chars ty=%s s=%s base=0" % (ty, enc(z)), "from_chars/base0-short")
+    for ty in list(TYPES) + list(ALIAS):
+        ub = TYPES[ALIAS.get(ty, ty)] in ((32, True), (64, True))
+        texts = auto_texts(ty, rnd) + ["0x", "0X", "-0x", "-0X", " 0x", "0", "-0", "0x0", "-0x1", "0x7f", "0x80", "0xff", "0x100"]
+        for _ in range(400 if thorough else 40):
+            bb = rnd.choice([8, 10, 16])
+            t = random_text(bb, rnd)
+            body = t.lstrip(" \t-+")
+            texts.append(t[: len(t) - len(body)] + {16: rnd.choice(["0x", "0X"]), 8: "0", 10: ""}[bb] + body)
+        for t in texts:
+            ws = rnd.randint(0, 1)
+            add("to_integer ty=%s s=%s base=0 ws=%d" % (ty, enc(t), ws), "to_integer/base0")
+            add("from_chars ty=%s s=%s base=0" % (ty, enc(t)), "from_chars/base0")
+            if not (ub and py_parse_auto(ty, t, ws) == "range"):
+                add("to_integer_nc ty=%s s=%s base=0 ws=%d" % (ty, enc(t), ws), "to_integer_nc/base0")
+
     # ---- the C library / std::string families
     cfns = ["strtol", "strtoll", "strtoul", "strtoull"]
     afns = ["atoi", "atol", "atoll"]
@@ -353,16 +472,26 @@ def generate(tier, seed):
     calpha = ["0", "1", "9", "f", "x", "-", "+", " "]
     cshort = [list(t) for n in range(0, 5) for t in itertools.product(calpha, repeat=n)]
     for s in cshort:
-        for fn, b in (("strtol", 10), ("strtoul", 16), ("stoi", 10), ("atoi", 10), ("strtol", 0), ("stoul", 0)):
-            if len(s) == 4 and fn in ("stoi", "atoi", "stoul") and not thorough:
+        for fn, b in (("strtol", 10), ("strtoul", 16), ("stoi", 10), ("atoi", 10), ("strtol", 0), ("stoul", 0), ("stol", 16)):
+            if len(s) == 4 and fn in ("stoi", "atoi", "stoul", "stol") and not thorough:
                 continue
             op = "sto" if fn.startswith("sto") else "cstr"
             add("%s fn=%s s=%s base=%d" % (op, fn, enc(s), b), op + ("/short" if b else "/short-base0"))
-    # base 0 (auto-detect): every strto*/sto* function on hexadecimal / octal / decimal texts around its limits
+            if fn.startswith("strto") and len(s) <= 3:
+                add("cstr_erange fn=%s s=%s base=%d" % (fn, enc(s), b), "cstr_erange/short")
+    # base 16 and 0 on views / strings that END in or right behind a 0x prefix (sto*: exact-size heap views, so the prefix
+    # test of strto_integer must not look at str[pos + 2] when only two characters are left)
+    for fn in cfns + sfns:
+        op = "sto" if fn in sfns else "cstr"
+        for t in ("0x", "0X", "-0x", "+0X", " 0x", "\t-0X", "0xg", "0x1", "-0x1f", "+0XfF", "0x0x1", "00x1", "0x-1", "0x+1", "x1", "0"):
+            for b in (16, 0):
+                add("%s fn=%s s=%s base=%d" % (op, fn, enc(t), b), op + "/prefix-edge")
     for fn in cfns + sfns:
         op = "sto" if fn in sfns else "cstr"
         for t in auto_texts(FN_TY[fn], rnd):
             add("%s fn=%s s=%s base=0" % (op, fn, enc(t)), op + "/base0")
+            if fn in cfns:
+                add("cstr_erange fn=%s s=%s base=0" % (fn, enc(t)), "cstr_erange/base0")
         for _ in range(3000 if thorough else 300):
             bb = rnd.choice([8, 10, 16])
             t = random_text(bb, rnd)
@@ -377,6 +506,8 @@ def generate(tier, seed):
         for b in ([10] if fn in afns else range(2, 37)):
             for t in parse_texts(ty, b, rnd):
                 add("%s fn=%s s=%s base=%d" % (op, fn, enc(t), b), op + "/limits")
+                if fn in cfns and (thorough or b in (2, 8, 10, 16, 36)):
+                    add("cstr_erange fn=%s s=%s base=%d" % (fn, enc(t), b), "cstr_erange/limits")
         for _ in range(6000 if thorough else 700):
             b = 10 if fn in afns else rnd.choice([2, 8, 10, 16, 36, rnd.randint(2, 36)])
             t = random_text(b, rnd)
@@ -419,9 +550,11 @@ def nontrivial(case, rows):
         return True
     # parsing: "no conversion" counts when the text has at least two characters; a conversion counts when it
     # consumed at least two characters; every range error counts
-    if r in ("invalid(77,0)", "invalid(0)", "invalid", "0,0,0"):
+    if op == "cstr_erange":
+        return r == "1" or len(_text(_fields(case.lines[0]))) >= 2
+    if r in ("invalid(77,0)", "invalid(0)", "invalid", "0,0"):
         return len(_text(_fields(case.lines[0]))) >= 2
-    if r.startswith("range") or r == "overflow" or r == "*" or r.endswith(",1"):
+    if r.startswith("range") or r == "overflow" or r == "*":
         return True
     nums = [x for x in r.replace("ok(", "").replace("none(", "").replace(")", "").split(",")]
     if len(nums) >= 2:
@@ -430,7 +563,8 @@ def nontrivial(case, rows):
 
 
 def classify(case, k, row):
-    """finding id for an impl != spec case; the predicates are those of the Lean `..._partial` theorems"""
+    """finding id for an impl != spec case; the predicates are recomputed from the case (rows), those of the Lean
+    `..._partial` theorems"""
     line = case.lines[k]
     op = line.split(" ")[0]
     f = _fields(line)
@@ -439,29 +573,13 @@ def classify(case, k, row):
         if row.spec.startswith("range(") and row.impl == "range(77,0)":
             return "F-C10-from-chars-ptr-on-overflow"
         return None
-    if op not in ("cstr", "sto"):
+    if op != "sto":
         return None
-    fn, base, s = f["fn"], int(f["base"]), _text(f)
-    if 0 in s:
-        s = s[: s.index(0)]
-    unsigned = FN_TY[fn].startswith("u")
-    i = 0
-    while i < len(s) and _is_space(s[i]):
-        i += 1
-    sign = s[i] if i < len(s) and s[i] in (43, 45) else None
-    j = i + 1 if sign else i
-    if sign == 43:
-        return "F-C10-cstdlib-plus-sign"                      # Spec.plusSign
-    if base == 16 and len(s) >= j + 3 and s[j] == 48 and s[j + 1] in (120, 88) and _hex_digit(s[j + 2]):
-        return "F-C10-cstdlib-base-prefix"                    # Spec.basePrefix
-    if unsigned and sign == 45:
-        return "F-C10-strtoul-minus"                          # Spec.unsignedMinus
-    if op == "cstr" and row.spec.endswith(",1"):
-        return "F-C10-cstdlib-range"                          # (Spec.strto ..).erange
-    if op == "sto" and row.spec == "range":
-        return "F-C10-cstdlib-range"
-    if op == "sto" and row.spec == "invalid" and row.impl == "ok(0,0)":
-        return "F-C10-sto-no-exception"                       # no conversion: std throws, tetl (noexcept) returns 0
+    # std::sto* throw where no conversion can be performed (std::invalid_argument) and where the value is out of range
+    # (std::out_of_range); etl::sto* are freestanding and return what strtol returns: 0 with *pos = 0, resp. the
+    # saturated value with *pos behind the digits - which is what the model (proved equal to the C grammar) says
+    if row.spec in ("invalid", "range") and row.impl == row.model and row.impl.startswith("ok("):
+        return "F-C10-sto-no-exception"
     return None
 
 
@@ -470,50 +588,85 @@ def group_of(case):
 
 
 P = "Tetl.C10.Props."
+G = "Tetl.C10.GenProps."
+_TYS = ["i8", "i16", "i32", "i64", "ill", "c8", "wc", "u8", "u16", "u32", "u64", "ull", "c8u", "c16", "c32"]
+_GEN = [G + "gen_%schk_%s_%s" % ("s" if t in _TYS[:7] else "u", t, k) for t in _TYS for k in ("eq", "exact")] + \
+       [G + "gen_parseDigit_%s_eq" % t for t in _TYS]
 THEOREMS = {
-    "to_chars": [P + "toChars_eq", P + "fromInteger_eq"],
+    "to_chars": [P + "toChars_eq", P + "fromInteger_eq", P + "revRange_is_etl_reverse"],
     "to_chars_all": [P + "toChars_eq", P + "round_trip"],
-    "from_integer": [P + "fromInteger_eq"],
+    "from_integer": [P + "fromInteger_eq", P + "revRange_is_etl_reverse"],
     "to_string": [P + "toStr_eq"],
-    "from_chars": [P + "toInteger_eq", P + "fromChars_eq_partial", P + "fromChars_range", P + "overflow_exact"],
-    "to_integer": [P + "toInteger_eq", P + "overflow_exact"],
-    "to_integer_nc": [P + "toInteger_unchecked_eq", P + "toInteger_unchecked_outside"],
+    "from_chars": [P + "toInteger_eq", P + "toInteger_auto_eq", P + "fromChars_eq_partial", P + "fromChars_range",
+                   P + "overflow_exact"] + _GEN,
+    "to_integer": [P + "toInteger_eq", P + "toInteger_auto_eq", P + "overflow_exact", P + "overflow_exact_auto"] + _GEN,
+    "to_integer_nc": [P + "toInteger_unchecked_eq", P + "toInteger_unchecked_auto_eq", P + "toInteger_unchecked_outside"],
     "round_trip": [P + "round_trip"],
-    "cstr": [P + "toInteger_eq", P + "toInteger_auto_eq", P + "cstrto_eq_partial", P + "strto_eq_partial",
-             P + "strto_auto_eq_partial", P + "ato_eq_partial"],
-    "sto": [P + "toInteger_eq", P + "toInteger_auto_eq", P + "strto_eq_partial", P + "strto_auto_eq_partial"],
+    "cstr": [P + "strto_eq", P + "cstrto_eq", P + "ato_eq"],
+    "cstr_erange": [],
+    "sto": [P + "strto_eq"],
 }
 
 CLAIMED = True
-TECHNIQUE = ("Lean 4 proof: hand model of from_integer/to_integer and their wrappers = declarative digit-list spec for all "
-             "widths, signednesses, bases, values, buffers and input strings; model tied to the code by exhaustive 8/16-bit "
-             "+ boundary + random correspondence run against the implementation, spec validated against libstdc++/glibc")
+TECHNIQUE = ("Lean 4 proof: hand model of from_integer/to_integer/strto_integer and their wrappers = declarative digit-list "
+             "spec for all widths, signednesses, bases, values, buffers and input strings; overflow checkers and parseDigit "
+             "of the model = their translation from the clang AST (regenerated on every run); model tied to the code by "
+             "exhaustive 8/16-bit + boundary + random correspondence run against the implementation, spec validated against "
+             "libstdc++/glibc")
 LEVEL_TEXT = ("The model of strings::from_integer (hence to_chars, to_string) is proved in Lean 4 to write, through checked "
               "writes only, exactly sign + most-significant-first digits of the value (+ optional NUL) when they fit and to "
               "report overflow otherwise, leaving the rest of the buffer untouched, for every width, signedness, base 2..36, "
-              "value and buffer length; the model of strings::to_integer (hence from_chars, sto*, strto*, ato*) is proved to "
-              "return value, consumed count and error class of the from_chars grammar for every byte string, with overflow "
-              "detected exactly at the type's limits and no signed overflow or out-of-string read; with base 0 (strtol's "
-              "auto-detection, used by strto*/sto*) the base is taken from the text (0x/0X + hex digit, leading 0, else "
-              "decimal) and the same holds, and strto* read nothing at or after the first NUL; parsing the formatted text "
-              "returns the value. The strto*/sto*/ato* results are proved equal to the C grammar only outside the input "
-              "classes of the recorded deviations. The model is tied to the current source on every run by running it and the implementation "
-              "on the same inputs under ASan/UBSan with guard bytes; the spec is validated against libstdc++/glibc.")
+              "value and buffer length (its etl::reverse call is C06's proved swap loop); the model of strings::to_integer "
+              "(hence from_chars) is proved to return value, consumed count and error class of the from_chars grammar for "
+              "every byte string, with overflow detected exactly at the type's limits and no signed overflow or "
+              "out-of-string read, also with base 0 (base taken from the text: 0x/0X + hex digit, leading 0, else decimal); "
+              "its overflow checkers and digit classifier are additionally translated from the clang AST of the current "
+              "header on every run and proved equal to the model's for all 15 integral types; the model of "
+              "strings::detail::strto_integer (strtol, strtoll, strtoul, strtoull, ato*, sto*) is proved to return the "
+              "value and end of the C grammar (C17 7.22.1.4: white space, +/-, 0x with base 16 or 0, negation in the "
+              "unsigned type, saturation at the limits) for EVERY text and base 0, 2..36, reading nothing at or after the "
+              "first NUL; parsing the formatted text returns the value. The model is tied to the current source on every "
+              "run by running it and the implementation on the same inputs under ASan/UBSan with guard bytes and exact-size "
+              "heap views; the spec is validated against libstdc++/glibc.")
 LEVEL_NOTE = ("Trusted: Lean kernel + propext/Classical.choice/Quot.sound; fidelity of the hand model outside the explored "
-              "inputs; g++-12/ASan/UBSan; libstdc++/glibc as oracle for spec validation. Recorded deviations (known findings): "
-              "from_chars returns ptr=first on result_out_of_range (the suite asserts it); strto*/sto*/ato* do not accept '+' "
-              "or a 0x prefix with base 16, return 0 with end=str instead of saturating with ERANGE, do not negate for "
-              "strtoul('-1'), and sto* do not throw. Repaired: strto*/sto* with base 0 crashed (division by zero, SIGFPE). "
-              "Members listed in coverage.correspondence_only have no "
-              "theorem of their own yet.")
+              "inputs (checkers/parseDigit: gen/translate.py + clang-16 instead); g++-12/ASan/UBSan; libstdc++/glibc as oracle "
+              "for spec validation. Recorded deviations (known findings): from_chars returns ptr=first on "
+              "result_out_of_range (the suite asserts it); sto* do not throw (no conversion: 0 with *pos = 0; out of range: "
+              "the saturated value). Not covered by design: errno = ERANGE (a freestanding library has no errno). Repaired "
+              "(this check's fix commits): base 0 crashed (SIGFPE); '+' sign refused; strtoul('-1') refused; 0x prefix with "
+              "base 16 not skipped; out-of-range texts gave 0 with end = str instead of the saturated value. "
+              "Members listed in coverage.correspondence_only have no theorem of their own.")
 # every modelled member has a theorem; what is compared but not proved:
-CORRESPONDENCE_ONLY = ["etl::reverse inside from_integer (modelled by its contract, loop not modelled here: C06)",
-                       "sto* on views with an embedded NUL (theorem is about the view as given; the oracle truncates)",
-                       "sto* exceptions / strto* errno (outside the model: recorded findings)",
+CORRESPONDENCE_ONLY = ["sto* on views with an embedded NUL (theorem is about the view as given; the oracle truncates - equal "
+                       "because a NUL is neither white space, sign nor digit)",
+                       "sto* exceptions / strto* errno: outside the model (recorded finding F-C10-sto-no-exception; errno: "
+                       "no errno in a freestanding library - the spec's ERANGE flag is validated against glibc on the "
+                       "cstr_erange lines, the implementation column is masked)",
                        "to_integer<check_overflow = false> on texts whose value is not representable: outside the option's "
                        "contract, no theorem beyond toInteger_unchecked_outside; the wrap-around is compared implementation = "
-                       "model for unsigned and narrower-than-int types, int/long are not run there (undefined behaviour)",
-                       "to_integer / from_chars called directly with base 0: proved (toInteger_auto_eq), executed only "
-                       "through strto*/sto* (std::from_chars has no base 0 to validate the spec against)",
-                       "char8_t/char16_t/char32_t/wchar_t: the theorems are per (bits, signed); the reference of the run is the "
-                       "standard integer type of the same width and signedness"]
+                       "model for unsigned and narrower-than-int types, int/long are not run there (undefined behaviour); "
+                       "strto_integer relies on it only for the END of the digits in the unsigned type (proved: "
+                       "Tetl.C10.toIntegerNC_end / toIntegerNC_auto_end)",
+                       "char8_t/char16_t/char32_t/wchar_t as the INTEGER type: the theorems are per (bits, signed); the "
+                       "reference of the run is the standard integer type of the same width and signedness. As the TEXT "
+                       "type they do not exist: to_integer takes etl::string_view and from_integer / to_chars write "
+                       "through char* only (no template over the character type)"]
+
+
+# ---- tie T for the overflow checkers / parseDigit of strings::to_integer: regenerated from the clang AST on every run
+# (gen/translate.py, job set TOINT_JOBS); TetlProofs/C10/GenProps.lean is re-checked against the regenerated
+# Tetl/C10/Gen.lean.
+def regenerate(ctx):
+    import os
+    import sys
+    import lib
+    sys.path.insert(0, os.path.join(lib.VERIF, "gen"))
+    import translate
+    out = os.path.join(lib.LEAN, "Tetl", "C10", "Gen.lean")
+    info = translate.translate(lib.REPO, out, translate.TOINT_JOBS, translate.TOINT_TU, "Tetl.C10.Gen",
+                               "include/etl/_strings/to_integer.hpp")
+    res = {"generated_files": [os.path.relpath(out, lib.VERIF)], "hash": [lib.file_hash(out)], "changed": info["changed"],
+           "functions": info["functions"], "translator": info["translator"]}
+    if info["errors"]:
+        res["error"] = "; ".join(info["errors"])
+    return res
